@@ -185,13 +185,17 @@ func writeEvidence(verifDir string, prop Property, c *Ctx, tier string, seed int
 		}
 	}
 	sort.SliceStable(c.Findings, func(i, j int) bool { return c.Findings[i].Key < c.Findings[j].Key })
+	knownPrinted := map[string]bool{}
 	n := 0
 	for i := range c.Findings {
 		f := &c.Findings[i]
 		for _, k := range known {
 			if k.Property == prop.ID && k.Status == "known" && k.Key == f.Key {
 				f.Known = true
-				out = append(out, fmt.Sprintf("KNOWN-FINDING: property=%s %s (%s at %s)", prop.ID, k.What, f.Key, f.Pos))
+				if !knownPrinted[k.Key] {
+					knownPrinted[k.Key] = true
+					out = append(out, fmt.Sprintf("KNOWN-FINDING: property=%s %s (%s at %s)", prop.ID, k.What, f.Key, f.Pos))
+				}
 			}
 		}
 		if f.Known {
